@@ -212,7 +212,12 @@ type FailWriter struct {
 	Limit    int // -1 = never fail
 	Accepted []byte
 	Failed   bool
+	Err      error // the error reported (nil = ErrInjected)
 }
+
+// WriteErrors are the failures a writer is made to report: whatever its value - also one that the buffering layers of the
+// standard library use themselves (io.ErrShortWrite), io.EOF or a closed pipe - the bytes were not written.
+var WriteErrors = []error{nil, nil, io.ErrShortWrite, io.ErrClosedPipe, io.EOF, fmt.Errorf("disk full: %w", io.ErrShortWrite)}
 
 func (w *FailWriter) Write(p []byte) (int, error) {
 	if w.Limit < 0 {
@@ -229,5 +234,8 @@ func (w *FailWriter) Write(p []byte) (int, error) {
 	}
 	w.Accepted = append(w.Accepted, p[:room]...)
 	w.Failed = true
+	if w.Err != nil {
+		return room, w.Err
+	}
 	return room, ErrInjected
 }
